@@ -85,65 +85,143 @@ def ev_kind(call, callee, client, state):
     return None
 
 
-def chunks_problems(repo, rep=None):
-    """(tiling problems, last-flag problems) of dimsemessages.chunks -- shared by C06.S2/S3 and C10.X6"""
-    chunks = repo.func('dimsemessages', 'chunks')
-    if rep is not None:
-        rep.analysed(chunks)
-    ps2, ps3 = [], []
-    gen = None
-    seqp, sizep = chunks.params[0], chunks.params[1]
-    locs: Dict[str, str] = {}
-    loc_nodes: Dict[str, ast.expr] = {}
-    for st in chunks.node.body:
-        if isinstance(st, ast.Assign) and isinstance(st.targets[0], ast.Name):
-            locs[st.targets[0].id] = norm(st.value)
-            loc_nodes[st.targets[0].id] = st.value
-    for n in ast.walk(chunks.node):
-        if isinstance(n, ast.GeneratorExp) and len(n.generators) == 1 and isinstance(n.elt, ast.Tuple) and len(n.elt.elts) == 2:
-            gen = (n.generators[0].target, n.generators[0].iter, n.elt.elts[0], n.elt.elts[1])
-        if isinstance(n, ast.For):
-            ys = [y for y in ast.walk(n) if isinstance(y, ast.Yield) and isinstance(y.value, ast.Tuple) and len(y.value.elts) == 2]
-            if ys:
-                gen = (n.target, n.iter, ys[0].value.elts[0], ys[0].value.elts[1])
-    if gen is None:
-        raise AnalysisError('%s: chunks() is neither a generator expression nor a for/yield over range' % chunks.loc())
-    tgt, it, sl, flag = gen
-    if isinstance(it, ast.Name) and it.id in loc_nodes:
-        it = loc_nodes[it.id]      # ``positions = range(...)`` bound before the loop
+def _replace_subtree(e: ast.AST, what: ast.AST, name: str) -> ast.AST:
+    key = ast.dump(what)
 
-    def res(e):
-        t = norm(e)
-        return locs.get(t, t)
-    if not (isinstance(it, ast.Call) and norm(it.func) == 'range' and len(it.args) == 3 and isinstance(tgt, ast.Name)):
-        ps2.append('positions are not produced by range(start, stop, step): %s' % norm(it))
-    else:
-        start, stop, step = it.args
-        if not (isinstance(start, ast.Constant) and start.value == 0):
-            ps2.append('range starts at %s, not 0' % norm(start))
-        if res(stop) != 'len(%s)' % seqp:
-            ps2.append('range stops at %s, not len(%s)' % (res(stop), seqp))
-        if res(step) != sizep:
-            ps2.append('range stride %s differs from the chunk width %s' % (res(step), sizep))
-        pos = tgt.id
-        if not (isinstance(sl, ast.Subscript) and norm(sl.value) == seqp and isinstance(sl.slice, ast.Slice)):
-            ps2.append('chunk %s is not a slice of the sequence' % norm(sl))
+    class T(ast.NodeTransformer):
+        def generic_visit(self, n):
+            if isinstance(n, ast.expr) and ast.dump(n) == key:
+                return ast.Name(id=name, ctx=ast.Load())
+            return super().generic_visit(n)
+    import copy
+    return T().visit(copy.deepcopy(e))
+
+
+def bytes_fragmenter(repo, hier, rep=None):
+    """The bytes fragmenter as one loop: ``fragment`` with the ``chunks`` generator fused in (whether the tree keeps them apart
+    or has merged them), abstractly interpreted; every yielded (chunk, flag) pair is decomposed into position / width / stop of
+    the ``range`` that drives the loop.
+
+    -> dict(f, fused, widths=[(width term, conds)], p2 (tiling), p3 (last flag), p4 (flag use), flaguse)
+    -- shared by C06.S1-S4, C10.X4/X5/X6."""
+    from ..normalize import fused_view
+    f0 = repo.func('dimsemessages', 'fragment')
+    callee_keys = set()
+    try:
+        ch = repo.func('dimsemessages', 'chunks')
+        callee_keys.add(ch.key)
+        if rep is not None:
+            rep.analysed(ch)
+    except AnalysisError:
+        ch = None
+    f, n_fused = fused_view(repo, f0, callee_keys)
+    if rep is not None:
+        rep.analysed(f0)
+        rep.notes['bytes_fragmenter'] = 'fragment analysed with %d generator(s) fused in' % n_fused
+    datap, mp, normal_p, last_p = f.params[0], f.params[1], f.params[2], f.params[3]
+    c = SymClient(repo, f, event_of=ev_kind, hierarchy=hier)
+    c.run(empty_state())
+    p2, p3, p4 = [], [], []
+    widths = set()
+    flaguse = None
+    n_y = 0
+    for ev, s in c.log:
+        if ev.kind == 'chunks':
+            # an unfused producer: nothing can be said about the pairs it hands over
+            raise AnalysisError('%s: chunks() could not be fused into fragment(); the tiling rule needs producer and consumer '
+                                'in one loop' % f0.loc())
+        if ev.kind != 'yield':
+            continue
+        n_y += 1
+        if len(ev.args) != 2:
+            p4.append('yields %s, not (fragment, flag)' % (ev.args,))
+            continue
+        try:
+            ce = ast.parse(ev.args[0], mode='eval').body
+            fe = ast.parse(ev.args[1], mode='eval').body
+        except SyntaxError:
+            raise AnalysisError('%s: cannot parse yielded terms %s' % (f0.loc(), ev.args))
+        # ---- the flag: normal if <has next> else last (as an expression, or decided by the path)
+        test = None
+        if isinstance(fe, ast.IfExp):
+            if norm(fe.body) == normal_p and norm(fe.orelse) == last_p:
+                test = fe.test
+            elif norm(fe.body) == last_p and norm(fe.orelse) == normal_p:
+                test = ast.UnaryOp(op=ast.Not(), operand=fe.test)
+            else:
+                p4.append('flag expression %s is not "normal if has_next else last"' % ev.args[1])
+                continue
+        elif ev.args[1] in (normal_p, last_p):
+            # if/else with one yield per branch: the path condition that separates them is the test
+            cmp_conds = [c_ for c_ in ev.conds if not c_[1:].startswith('iter:')]
+            if not cmp_conds:
+                p4.append('flag %s is yielded unconditionally' % ev.args[1])
+                continue
+            pol, txt = cmp_conds[-1][0] == '+', cmp_conds[-1][1:]
+            try:
+                test = ast.parse(txt, mode='eval').body
+            except SyntaxError:
+                raise AnalysisError('%s: cannot parse condition %s' % (f0.loc(), txt))
+            if (ev.args[1] == normal_p) != pol:
+                test = ast.UnaryOp(op=ast.Not(), operand=test)
         else:
-            lo = aff_of_term(norm(sl.slice.lower)) if sl.slice.lower else Affine.c(0)
-            hi = aff_of_term(norm(sl.slice.upper)) if sl.slice.upper else None
-            if lo != Affine.sym(('var', pos)):
-                ps2.append('slice starts at %s, not at the position' % norm(sl.slice.lower))
-            if hi != Affine.sym(('var', pos)) + Affine.sym(('var', sizep)):
-                ps2.append('slice ends at %s, not position + width' % (norm(sl.slice.upper) if sl.slice.upper else 'end'))
-        # S3: flag == pos + size < length
+            p4.append('flag expression %s is not "normal if has_next else last"' % ev.args[1])
+            continue
+        flaguse = 'normal-if-has-next'
+        # ---- the chunk: data[pos:pos + width] with pos from range(0, len(data), width)
+        if not (isinstance(ce, ast.Subscript) and isinstance(ce.slice, ast.Slice) and ce.slice.step is None):
+            p2.append('chunk %s is not a slice of the sequence' % ev.args[0])
+            continue
+        if norm(ce.value) != datap:
+            p2.append('chunks are cut from %s, not from the data' % norm(ce.value))
+            continue
+        items = [n for n in ast.walk(ce) if isinstance(n, ast.Call) and isinstance(n.func, ast.Name) and n.func.id == 'ITEM'
+                 and len(n.args) == 1]
+        rng = [n for n in items if isinstance(n.args[0], ast.Call) and norm(n.args[0].func) == 'range']
+        if not rng:
+            p2.append('positions are not produced by range(start, stop, step): %s' % ev.args[0])
+            continue
+        pos_node = rng[0]
+        r_args = pos_node.args[0].args
+        if len(r_args) == 3:
+            start, stop, step = r_args
+        elif len(r_args) == 2:
+            start, stop, step = r_args[0], r_args[1], ast.Constant(value=1)
+        else:
+            start, stop, step = ast.Constant(value=0), r_args[0], ast.Constant(value=1)
+        widths.add((norm(step), ev.conds))
+        if not (isinstance(start, ast.Constant) and start.value == 0):
+            p2.append('range starts at %s, not 0' % norm(start))
+        if norm(stop) != 'len(%s)' % datap:
+            p2.append('range stops at %s, not len(%s)' % (norm(stop), datap))
+
+        def canon(e):
+            e = _replace_subtree(e, pos_node, '__pos__')
+            if not isinstance(step, ast.Constant):
+                e = _replace_subtree(e, step, '__w__')
+            return e
+        w_aff = Affine.sym(('var', '__w__')) if not isinstance(step, ast.Constant) else Affine.c(step.value)
+        lo = aff_of_term(norm(canon(ce.slice.lower))) if ce.slice.lower is not None else Affine.c(0)
+        hi = aff_of_term(norm(canon(ce.slice.upper))) if ce.slice.upper is not None else None
+        if lo != Affine.sym(('var', '__pos__')):
+            p2.append('slice starts at %s, not at the position' % (norm(canon(ce.slice.lower)) if ce.slice.lower is not None else 'start'))
+        if hi != Affine.sym(('var', '__pos__')) + w_aff:
+            p2.append('slice ends at %s, not position + range stride: chunks overlap or leave gaps'
+                      % (norm(canon(ce.slice.upper)) if ce.slice.upper is not None else 'end'))
+        # ---- S3: <has next> == pos + width < len(data)
+        t = canon(test)
+        neg = False
+        while isinstance(t, ast.UnaryOp) and isinstance(t.op, ast.Not):
+            t, neg = t.operand, not neg
         ok3 = False
-        if isinstance(flag, ast.Compare) and len(flag.ops) == 1:
-            l = aff_of_term(res(flag.left))
-            r = aff_of_term(res(flag.comparators[0]))
+        if isinstance(t, ast.Compare) and len(t.ops) == 1:
+            l, r = aff_of_term(norm(t.left)), aff_of_term(norm(t.comparators[0]))
             if l is not None and r is not None:
-                d = l - r   # normal form: (l - r) OP 0
-                want = Affine.sym(('var', pos)) + Affine.sym(('var', sizep)) - Affine.sym(('len', seqp))
-                op = flag.ops[0]
+                d = l - r
+                want = Affine.sym(('var', '__pos__')) + w_aff - Affine.sym(('len', datap))
+                op = t.ops[0]
+                if neg:
+                    op = {ast.Lt: ast.GtE, ast.GtE: ast.Lt, ast.Gt: ast.LtE, ast.LtE: ast.Gt}.get(type(op), type(None))()
                 if isinstance(op, ast.Lt) and d == want:
                     ok3 = True
                 if isinstance(op, ast.Gt) and d == want.scale(-1):
@@ -153,20 +231,20 @@ def chunks_problems(repo, rep=None):
                 if isinstance(op, ast.GtE) and d == (want + Affine.c(1)).scale(-1):
                     ok3 = True
         if not ok3:
-            # not in the affine normal form: fold the flag term at every (length, width, position) of a boundary grid and
-            # compare with pos + width < length (integer division / rounding forms are decided this way)
+            # not in the affine normal form: fold the test at every (length, width, position) of a boundary grid and compare
+            # with pos + width < length (integer division / rounding forms are decided this way)
             from ..arith import CannotEvaluate, eval_value
             agree, witness = True, None
+            tc = canon(test)
             try:
                 for size_v in range(1, 7):
+                    if isinstance(step, ast.Constant) and step.value != size_v:
+                        continue
                     for length_v in range(0, 4 * size_v + 2):
-                        env = {seqp: b'x' * length_v, sizep: size_v}
-                        for st in chunks.node.body:
-                            if isinstance(st, ast.Assign) and len(st.targets) == 1 and isinstance(st.targets[0], ast.Name):
-                                env[st.targets[0].id] = eval_value(st.value, env)
+                        env = {datap: b'x' * length_v, '__w__': size_v}
                         for pos_v in range(0, length_v, size_v):
-                            env[pos] = pos_v
-                            got = bool(eval_value(flag, env))
+                            env['__pos__'] = pos_v
+                            got = bool(eval_value(tc, env))
                             if got != (pos_v + size_v < length_v):
                                 agree, witness = False, (length_v, size_v, pos_v, got)
                                 raise StopIteration
@@ -177,15 +255,24 @@ def chunks_problems(repo, rep=None):
             if agree:
                 ok3 = True
                 if rep is not None:
-                    rep.notes['chunks_flag'] = 'decided by folding %s on the boundary grid' % norm(flag)
+                    rep.notes['chunks_flag'] = 'decided by folding %s on the boundary grid' % norm(tc)
             elif witness is not None:
-                ps3.append('has-next flag %s is %s for a sequence of %d bytes cut into %d-byte chunks at position %d'
-                           % (norm(flag), witness[3], witness[0], witness[1], witness[2]))
+                p3.append('has-next flag %s is %s for a sequence of %d bytes cut into %d-byte chunks at position %d'
+                          % (norm(tc), witness[3], witness[0], witness[1], witness[2]))
                 ok3 = True      # reported with its witness
         if not ok3:
-            ps3.append('has-next flag is %s, which is not equivalent to pos + width < len(seq): the last chunk is '
-                       'mis-flagged (at exact multiples or always)' % norm(flag))
-    return ps2, ps3, chunks
+            p3.append('has-next flag is %s, which is not equivalent to pos + width < len(seq): the last chunk is '
+                      'mis-flagged (at exact multiples or always)' % norm(canon(test)))
+    if n_y == 0:
+        raise AnalysisError('%s: no yield found' % f0.loc())
+    return dict(f=f0, fused=f, widths=sorted(widths), p2=sorted(set(p2)), p3=sorted(set(p3)), p4=sorted(set(p4)),
+                flaguse=flaguse, chunks=ch)
+
+
+def chunks_problems(repo, rep=None):
+    """(tiling problems, last-flag problems, anchor function) of the bytes fragmenter -- shared by C06.S2/S3 and C10.X6"""
+    r = bytes_fragmenter(repo, exc_hierarchy(repo), rep)
+    return r['p2'], r['p3'], (r['chunks'] or r['f'])
 
 
 def run(repo, rep):
@@ -205,10 +292,12 @@ def run(repo, rep):
     rep.rule('C06.S6', 'fragment and fragment_file agree on width expression and flag use', 1)
     rep.rule('C06.S7', 'the only caller of DIMSEMessage.encode is Association.send, passing the association\'s negotiated maximum', 1)
 
-    # ---------------------------------------------------------------- chunks (S2, S3)
-    ps2, ps3, chunks = chunks_problems(repo, rep)
-    rep.check(not ps2, 'C06.S2', 'dimsemessages:chunks:tiling', chunks.loc(), 'range(0, len, width) with slices [pos:pos+width]', '; '.join(ps2))
-    rep.check(not ps3, 'C06.S3', 'dimsemessages:chunks:last-flag', chunks.loc(), 'has_next == pos + width < len', '; '.join(ps3))
+    # ---------------------------------------------------------------- bytes fragmenter (S2, S3): producer and consumer fused
+    bf = bytes_fragmenter(repo, hier, rep)
+    anchor = bf['chunks'] or bf['f']
+    rep.check(not bf['p2'], 'C06.S2', 'dimsemessages:chunks:tiling', anchor.loc(), 'range(0, len, width) with slices [pos:pos+width]',
+              '; '.join(bf['p2']))
+    rep.check(not bf['p3'], 'C06.S3', 'dimsemessages:chunks:last-flag', anchor.loc(), 'has_next == pos + width < len', '; '.join(bf['p3']))
 
     # ---------------------------------------------------------------- fragment / fragment_file
     widths = {}
@@ -216,20 +305,25 @@ def run(repo, rep):
     for fname in ('fragment', 'fragment_file'):
         f = repo.func('dimsemessages', fname)
         rep.analysed(f)
-        c = SymClient(repo, f, event_of=ev_kind, hierarchy=hier)
-        fin = c.final_states(c.run(empty_state()))
         mp = f.params[1]
         normal_p, last_p = f.params[2], f.params[3]
         p1, p2, p3, p4 = [], [], [], []
         wterms = set()
         n_y = 0
-        for ev, s in c.log:
+        if fname == 'fragment':
+            wterms = set(bf['widths'])
+            p4 = list(bf['p4'])
+            if bf['flaguse']:
+                flaguse[fname] = bf['flaguse']
+            n_y = 1
+            log = []
+        else:
+            c = SymClient(repo, f, event_of=ev_kind, hierarchy=hier)
+            fin = c.final_states(c.run(empty_state()))
+            log = c.log
+        for ev, s in log:
             if True:
                 i = len(s.trail)
-                if ev.kind == 'chunks':
-                    wterms.add((ev.args[1] if len(ev.args) > 1 else '?', ev.conds))
-                    if ev.args[0] != f.params[0]:
-                        p2.append('chunks() is applied to %s, not to the data' % ev.args[0])
                 if ev.kind == 'fp.read' and ev.args != ('1',):
                     wterms.add((ev.args[0], ev.conds))
                 if ev.kind == 'yield':
@@ -246,10 +340,7 @@ def run(repo, rep):
                         continue
                     test = norm(fe.test)
                     flaguse[fname] = 'normal-if-has-next'
-                    if fname == 'fragment':
-                        if not (test.startswith('ITEM(chunks(') and test.endswith('[1]') and ev.args[0] == test[:-3] + '[0]'):
-                            p4.append('fragment and flag do not come from the same chunk: %s / %s' % (ev.args[0], test))
-                    else:
+                    if True:
                         # has_next = fp.read(1); pushed back iff truthy
                         if test != '%s.read(1)' % f.params[0]:
                             p3.append('has-next is %s, not "one more byte can be read"' % test)
